@@ -7,6 +7,7 @@ solver seconds, realised samples and the exhaustion verdict are all observable.
 from __future__ import annotations
 
 import inspect
+import os
 import random
 import sys
 import time
@@ -38,6 +39,48 @@ def _instrument_z3() -> None:
 
     z3.Solver.check = check  # type: ignore
     z3.Solver._vf_wrapped = True  # type: ignore
+
+
+def _patch_crosshair_perf() -> None:
+    """Semantics-preserving speed-up: indexing/slicing a symbolic str at positions whose code
+    points are all concrete returns the equal concrete ``str`` instead of a symbolic wrapper
+    around constants (otherwise every comparison on a *concrete* character of a template
+    document costs solver queries).  A str is determined by its code points, so the value is
+    identical; only its representation changes."""
+    from crosshair.libimpl import builtinslib as B
+    from crosshair.tracers import NoTracing, ResumedTracing
+    from crosshair.core import deep_realize
+    from numbers import Integral
+
+    L = B.LazyIntSymbolicStr
+    if getattr(L, "_vf_fast", False):
+        return
+
+    def __getitem__(self, i):
+        with NoTracing():
+            if not isinstance(i, (Integral, slice)):
+                raise TypeError(type(i))
+            i = deep_realize(i)
+            with ResumedTracing():
+                newcontents = self._codepoints[i]
+            if not isinstance(i, slice):
+                if type(newcontents) is int:
+                    return chr(newcontents)
+                newcontents = [newcontents]
+            else:
+                try:
+                    n = len(newcontents)
+                    if type(n) is int and n <= 4096:
+                        with ResumedTracing():
+                            items = [newcontents[k] for k in range(n)]
+                        if all(type(x) is int for x in items):
+                            return "".join(map(chr, items))
+                except Exception:
+                    pass
+            return L(newcontents)
+
+    L.__getitem__ = __getitem__
+    L._vf_fast = True
 
 
 def _jsonable(v: Any, depth: int = 0) -> Any:
@@ -126,8 +169,15 @@ def explore(
     from vf import Skip
 
     _instrument_z3()
+    if os.environ.get("VF_NO_PERF_PATCH") != "1":
+        _patch_crosshair_perf()
     full_sig = inspect.signature(fn)
-    sym_params = [p for p in full_sig.parameters.values() if p.name not in cell]
+    # symbolic inputs = the positional parameters; keyword-only parameters are concrete cell
+    # parameters (taken from ``cell`` or their default)
+    sym_params = [p for p in full_sig.parameters.values() if p.kind is not inspect.Parameter.KEYWORD_ONLY]
+    for name in cell:
+        if name not in full_sig.parameters or full_sig.parameters[name].kind is not inspect.Parameter.KEYWORD_ONLY:
+            raise TypeError(f"cell parameter {name} of {fn.__name__} must be keyword-only")
     for p in sym_params:
         if p.annotation is inspect.Parameter.empty:
             raise TypeError(f"symbolic parameter {p.name} of {fn.__name__} needs a type annotation")
